@@ -27,7 +27,7 @@ Holds(c, e0) ==
       VA == PathOf(e, FALSE, e.linesA)
       VR == PathOf(e, TRUE, e.linesR)
       VH == PathOf(e, FALSE, e.linesH) IN
-  CASE c = "C10_Valid"     -> e.shape = "units" \/ (OkA(e) /\ (e.onlyA \/ (OkR(e) /\ OkH(e))))            \* a valid request is carried out, in both modes
+  CASE c = "C10_Valid"     -> e.shape = "units" \/ e.invalid \/ (OkA(e) /\ (e.onlyA \/ (OkR(e) /\ OkH(e))))            \* a valid request is carried out, in both modes
     [] c = "C10_End"       -> OkA(e) => C10_End(e, VA, 1)
     [] c = "C10_EndRel"    -> OkR(e) => C10_End(e, VR, (Len(VR) + 3) \div 2)
     [] c = "C10_Start"     -> (OkA(e) /\ e.shape \notin {"polyline", "parametric", "mixed"}) => C10_Start(e, VA)   \* a user curve may start elsewhere
